@@ -9,7 +9,7 @@ import leanaudit
 LEAN = os.path.join(VERIF, "lean")
 DRV = os.path.join(LEAN, ".lake", "build", "bin", "drv")
 REPLAY = os.path.join(VERIF, "replay")
-EVID = os.path.join(VERIF, "evidence")
+EVID = os.environ.get("VERIF_EVIDENCE_DIR") or os.path.join(VERIF, "evidence")   # seeded-change trials write elsewhere
 KNOWN = os.path.join(VERIF, "known_findings.jsonl")
 
 
